@@ -83,6 +83,30 @@ def lieTysList : List Avp → List Ty
   | a :: as => a.lieTys ++ lieTysList as
 end
 
+/- representable on the wire: every Time within the 32-bit 1900-based range, every AVP length within 24 bits
+(C05: anything else must make the encoder fail) -/
+mutual
+def Value.repB : Value → Bool
+  | .grouped ms => repListB ms
+  | .time secs _ => decide (0 ≤ secs + RFC868) && decide (secs + RFC868 ≤ 4294967295)
+  | _ => true
+def Avp.repB : Avp → Bool
+  | .mk _ _ _ _ len _ v => decide (len ≤ 16777215) && v.repB
+def repListB : List Avp → Bool
+  | [] => true
+  | a :: as => a.repB && repListB as
+end
+
+def Msg.repB (m : Msg) : Bool := decide (m.length ≤ 16777215) && repListB m.avps
+
+/-- FNV-1a over the octets (large frames are compared by length and hash instead of hex) -/
+def fnv (bs : Bytes) : UInt64 := bs.foldl (fun h b => (h ^^^ b.toUInt64) * 1099511628211) 14695981039346656037
+
+/-- C05: the encoder run against a writer that accepts exactly `k` octets in total and then fails -/
+def encTo (m : Msg) (k : Nat) : Bool × Bytes :=
+  let e := m.enc
+  if e.bytes.length ≤ k then (e.err.isNone, e.bytes) else (false, e.bytes.take k)
+
 def strictCfg (limit : Nat) : Cfg := ⟨fun _ _ => false, limit⟩
 
 end Dia
